@@ -48,6 +48,11 @@ pub enum Source {
     ClonedSlice,
     /// `vec.par().cloned()` : map-based (items `E`)
     ParCloned,
+    /// `nested.par().flat_map(|v| v.iter()).cloned()` over a `Vec<Vec<E>>` (groups of 0..=3 elements): the adapters after a
+    /// stage that yields references (items `E`)
+    NestedCloned,
+    /// `nested.par().flat_map(|v| v.iter()).copied()` over a `Vec<Vec<usize>>` (items `usize`)
+    NestedCopied { start: u16 },
     /// instrumented by-value iterator with the given size hint behaviour
     Iter { hint: Hint },
     /// instrumented endless by-value iterator cycling over the input; ends (and sets the trip flag) after `budget` elements
@@ -78,7 +83,7 @@ impl Source {
         )
     }
     pub fn yields_usize(self) -> bool {
-        matches!(self, Source::Range { .. } | Source::RangeIter { .. })
+        matches!(self, Source::Range { .. } | Source::RangeIter { .. } | Source::NestedCopied { .. })
     }
     /// is the source a by-value `Iterator` wrapped into a concurrent iterator (pulls serialised)?
     pub fn is_iter_backed(self) -> bool {
